@@ -315,6 +315,17 @@ fn judge_common(g: &AirfoilGeometry, sec: &Curve2, l: f64, case: &Case, tag: &st
                 which = format!("station {} of {}: camber direction {:?} against the step to its neighbour {:?}", si, nst, st.camber_point().normal, step.normalize());
             }
         }
+        // the returning and the in-place reversal of a station are the same operation, and an involution
+        let mut twins = true;
+        for st in g.stations.iter().step_by((nst / 6).max(1)) {
+            let a = st.reversed();
+            let mut b = st.clone();
+            b.reverse_in_place();
+            let e = 1e-9 * l;
+            let eq = |x: &InscribedCircle, y: &InscribedCircle| d2(&x.contact_pos, &y.contact_pos) <= e && d2(&x.contact_neg, &y.contact_neg) <= e && d2(&x.spanning_ray.ray().origin, &y.spanning_ray.ray().origin) <= e && (x.spanning_ray.ray().dir - y.spanning_ray.ray().dir).norm() <= e && (x.radius() - y.radius()).abs() <= e;
+            twins &= eq(&a, &b) && d2(&a.contact_pos, &st.contact_neg) <= e && d2(&a.contact_neg, &st.contact_pos) <= e && a.spanning_ray.ray().dir.dot(&st.spanning_ray.ray().dir) < 0.0 && eq(&a.reversed(), st);
+        }
+        l_.check("reversing a station swaps its contacts and turns its ray, in place or returning, and twice is the identity", "", twins, mk, || tag.to_string());
         l_.check("every station has its positive contact ahead of the negative one along its own spanning ray", "", labels, mk, || format!("{}: {}", tag, which));
         l_.check("every station's own camber direction points to the next station", "", forward, mk, || format!("{}: {}", tag, which));
     }
